@@ -92,6 +92,115 @@ def monitor(res, store, kind, t, ident, got, script, exact_case=True):
         res.violation('C17', 'unknown-found', '%s store: unconfigured identity %r returns %r' % (kind, ident, got), script)
 
 
+def table_case(res, drv, tmp, k, t, t2, idents, idents2, empty_reload):
+    """memory / json / sqlite / multi built from table `t` (second multi member and the reload target: `t2`)"""
+    script = {'table': t, 'table2': t2, 'empty_reload': empty_reload}
+    if drv is not None:
+        drv.ask('s.reset')
+        model_table(drv, 1, t)
+        model_table(drv, 2, t2)
+    mem = MEM.Authenticator(t)
+    path = os.path.join(tmp, 'users%d.json' % k)
+    with open(path, 'w') as f:
+        json.dump(t, f)
+    js = JS.Authenticator(path)
+    js.load()
+    import contextlib, io
+    with contextlib.redirect_stdout(io.StringIO()):
+        sq = SQL.Authenticator(':memory:')
+    sqlite_ok = True
+    for ident, r in t.items():
+        sq.sql.execute('insert into authkeys (owner, ident, secret, pubchans, subchans) values (?,?,?,?,?)',
+                       (r['owner'], ident, r['secret'], json.dumps(r['pubchans']), json.dumps(r['subchans'])))
+    mem2 = MEM.Authenticator(t2)
+    m12, m21 = MULTI.Authenticator(), MULTI.Authenticator()
+    m12.add(mem), m12.add(mem2)
+    m21.add(mem2), m21.add(mem)
+    for ident in idents:
+        res.evaluations += 1
+        sc = dict(script, lookup=ident)
+        for kind, store in (('memory', mem), ('json', js), ('sqlite', sq)):
+            try:
+                got = store.get_authkey(ident)
+            except Exception as e:
+                res.violation('C17', 'lookup-raises', '%s store raised %r for look-up %r' % (kind, e, ident), sc)
+                continue
+            if got and got.get('ident') != ident:
+                res.violation('C17', 'wrong-ident-field', '%s store returned ident %r for look-up %r' % (kind, got.get('ident'), ident), sc)
+            monitor(res, store, kind, t, ident, got, sc)
+            if drv is not None:
+                mo = drv.ask('s.table 1 %s' % hexin(b_(ident)))
+                if mo != rec_str(got):
+                    res.disagree('%s look-up' % kind, sc, rec_str(got), mo)
+            res.note('lookup.%s.%s' % (kind, 'hit' if got else 'miss'))
+        for kind, store, order, first, second in (('multi12', m12, '1,2', t, t2), ('multi21', m21, '2,1', t2, t)):
+            got = store.get_authkey(ident)
+            want = first.get(ident) or second.get(ident)
+            if (got or None) and not want or (want and not got) or (got and want and any(got[x] != want[x] for x in want)):
+                res.violation('C17', 'multi-first', 'stacked store (%s) returned %r for %r, the first member that knows it has %r' % (order, got, ident, want), sc)
+            if drv is not None:
+                mo = drv.ask('s.multi %s %s' % (order, hexin(b_(ident))))
+                if mo != rec_str(got):
+                    res.disagree('multi look-up', sc, rec_str(got), mo)
+        res.nontriv(['tbl', sorted(t), ident])
+    # ---------------- the JSON store RECONFIGURED: the file now holds table 2 (every fourth time: nobody) and is
+    # reloaded; it must answer exactly what is configured NOW - also for the identities it knew before
+    t3 = {} if empty_reload else t2
+    with open(path, 'w') as f:
+        json.dump(t3, f)
+    js.load()
+    for ident in sorted(set(idents2) | set(t)):
+        res.evaluations += 1
+        sc = dict(script, table2=t3, reloaded=True, lookup=ident)
+        try:
+            got = js.get_authkey(ident)
+        except Exception as e:
+            res.violation('C17', 'lookup-raises', 'json store (reloaded) raised %r for look-up %r' % (e, ident), sc)
+            continue
+        monitor(res, js, 'json', t3, ident, got, sc)
+        if drv is not None and t3 is t2:
+            mo = drv.ask('s.table 2 %s' % hexin(b_(ident)))
+            if mo != rec_str(got):
+                res.disagree('json look-up after reload', sc, rec_str(got), mo)
+        res.note('lookup.json-reloaded.%s' % ('hit' if got else 'miss'))
+    sq._close()
+
+
+def env_lookups(res, drv, env, te, idents):
+    """look-ups on the REAL env store built over `env` (ENV.os is already the shim), judged against table `te`"""
+    store = ENV.Authenticator()
+    for ident in idents:
+        res.evaluations += 1
+        sc = {'env': env, 'env_table': te, 'lookup': ident}
+        try:
+            got = store.get_authkey(ident)
+        except Exception as e:
+            res.violation('C17', 'lookup-raises', 'env store raised %r for look-up %r' % (e, ident), sc)
+            continue
+        # spec: case-insensitive by construction
+        match = [i for i in te if i.upper() == ident.upper()]
+        if match:
+            w = dict(te[match[0]])
+            if w['owner'] is None:
+                w['owner'] = ident
+            if not got and w['secret']:
+                res.violation('C17', 'configured-not-found', 'env store: configured identity %r (as %r) is not returned' % (match[0], ident), sc)
+            elif got:
+                for x in ('secret', 'owner', 'pubchans', 'subchans'):
+                    if got[x] != w[x]:
+                        res.violation('C17', 'wrong-record', 'env store: %r field %s is %r, configured %r' % (ident, x, got[x], w[x]), sc)
+                if '' in got['pubchans'] or '' in got['subchans']:
+                    res.violation('C17', 'env-empty-channel-grant', "env store: identity %r is granted the channel named ''" % ident, sc, )
+        elif got:
+            res.violation('C17', 'unknown-found', 'env store: unconfigured identity %r returns %r' % (ident, got), sc)
+        if drv is not None:
+            mo = drv.ask('s.envlookup %s %s' % (hexin(b_(ident)), hexin(b_(ident.upper()))))
+            if mo != rec_str(got):
+                res.disagree('env look-up', sc, rec_str(got), mo)
+        res.note('lookup.env.%s' % ('hit' if got else 'miss'))
+        res.nontriv(['env', sorted(env), ident])
+
+
 def run(tier, seed, drv):
     res = Result('stores')
     res.model_used = drv is not None
@@ -103,76 +212,8 @@ def run(tier, seed, drv):
             # ---------------- memory / json / sqlite / multi on the same table
             t = gen_table(rng)
             t2 = gen_table(rng)
-            script = {'table': t, 'table2': t2}
-            if drv is not None:
-                drv.ask('s.reset')
-                model_table(drv, 1, t)
-                model_table(drv, 2, t2)
-            mem = MEM.Authenticator(t)
-            path = os.path.join(tmp, 'users%d.json' % k)
-            with open(path, 'w') as f:
-                json.dump(t, f)
-            js = JS.Authenticator(path)
-            js.load()
-            import contextlib, io
-            with contextlib.redirect_stdout(io.StringIO()):
-                sq = SQL.Authenticator(':memory:')
-            sqlite_ok = True
-            for ident, r in t.items():
-                sq.sql.execute('insert into authkeys (owner, ident, secret, pubchans, subchans) values (?,?,?,?,?)',
-                               (r['owner'], ident, r['secret'], json.dumps(r['pubchans']), json.dumps(r['subchans'])))
-            mem2 = MEM.Authenticator(t2)
-            m12, m21 = MULTI.Authenticator(), MULTI.Authenticator()
-            m12.add(mem), m12.add(mem2)
-            m21.add(mem2), m21.add(mem)
-            for ident in lookups(rng, t):
-                res.evaluations += 1
-                sc = dict(script, lookup=ident)
-                for kind, store in (('memory', mem), ('json', js), ('sqlite', sq)):
-                    try:
-                        got = store.get_authkey(ident)
-                    except Exception as e:
-                        res.violation('C17', 'lookup-raises', '%s store raised %r for look-up %r' % (kind, e, ident), sc)
-                        continue
-                    if got and got.get('ident') != ident:
-                        res.violation('C17', 'wrong-ident-field', '%s store returned ident %r for look-up %r' % (kind, got.get('ident'), ident), sc)
-                    monitor(res, store, kind, t, ident, got, sc)
-                    if drv is not None:
-                        mo = drv.ask('s.table 1 %s' % hexin(b_(ident)))
-                        if mo != rec_str(got):
-                            res.disagree('%s look-up' % kind, sc, rec_str(got), mo)
-                    res.note('lookup.%s.%s' % (kind, 'hit' if got else 'miss'))
-                for kind, store, order, first, second in (('multi12', m12, '1,2', t, t2), ('multi21', m21, '2,1', t2, t)):
-                    got = store.get_authkey(ident)
-                    want = first.get(ident) or second.get(ident)
-                    if (got or None) and not want or (want and not got) or (got and want and any(got[x] != want[x] for x in want)):
-                        res.violation('C17', 'multi-first', 'stacked store (%s) returned %r for %r, the first member that knows it has %r' % (order, got, ident, want), sc)
-                    if drv is not None:
-                        mo = drv.ask('s.multi %s %s' % (order, hexin(b_(ident))))
-                        if mo != rec_str(got):
-                            res.disagree('multi look-up', sc, rec_str(got), mo)
-                res.nontriv(['tbl', sorted(t), ident])
-            # ---------------- the JSON store RECONFIGURED: the file now holds table 2 (every fourth time: nobody) and is
-            # reloaded; it must answer exactly what is configured NOW - also for the identities it knew before
-            t3 = {} if k % 4 == 1 else t2
-            with open(path, 'w') as f:
-                json.dump(t3, f)
-            js.load()
-            for ident in sorted(set(lookups(rng, t3)) | set(t)):
-                res.evaluations += 1
-                sc = dict(script, table2=t3, reloaded=True, lookup=ident)
-                try:
-                    got = js.get_authkey(ident)
-                except Exception as e:
-                    res.violation('C17', 'lookup-raises', 'json store (reloaded) raised %r for look-up %r' % (e, ident), sc)
-                    continue
-                monitor(res, js, 'json', t3, ident, got, sc)
-                if drv is not None and t3 is t2:
-                    mo = drv.ask('s.table 2 %s' % hexin(b_(ident)))
-                    if mo != rec_str(got):
-                        res.disagree('json look-up after reload', sc, rec_str(got), mo)
-                res.note('lookup.json-reloaded.%s' % ('hit' if got else 'miss'))
-            sq._close()
+            empty_reload = (k % 4 == 1)
+            table_case(res, drv, tmp, k, t, t2, lookups(rng, t), lookups(rng, {} if empty_reload else t2), empty_reload)
             res.sample({'table': {i: r for i, r in list(t.items())[:2]}, 'lookups': lookups(rng, t)[:6]}, limit=3)
             # ---------------- environment store
             te = gen_table(rng, env_safe=True)
@@ -199,37 +240,7 @@ def run(tier, seed, drv):
                     drv.ask('s.reset')
                     for kk, vv in env.items():
                         drv.ask('s.env %s %s' % (hexin(b_(kk)), hexin(b_(vv))))
-                store = ENV.Authenticator()
-                for ident in lookups(rng, te):
-                    res.evaluations += 1
-                    sc = {'env': env, 'lookup': ident}
-                    try:
-                        got = store.get_authkey(ident)
-                    except Exception as e:
-                        res.violation('C17', 'lookup-raises', 'env store raised %r for look-up %r' % (e, ident), sc)
-                        continue
-                    # spec: case-insensitive by construction
-                    match = [i for i in te if i.upper() == ident.upper()]
-                    if match:
-                        w = dict(te[match[0]])
-                        if w['owner'] is None:
-                            w['owner'] = ident
-                        if not got and w['secret']:
-                            res.violation('C17', 'configured-not-found', 'env store: configured identity %r (as %r) is not returned' % (match[0], ident), sc)
-                        elif got:
-                            for x in ('secret', 'owner', 'pubchans', 'subchans'):
-                                if got[x] != w[x]:
-                                    res.violation('C17', 'wrong-record', 'env store: %r field %s is %r, configured %r' % (ident, x, got[x], w[x]), sc)
-                            if '' in got['pubchans'] or '' in got['subchans']:
-                                res.violation('C17', 'env-empty-channel-grant', "env store: identity %r is granted the channel named ''" % ident, sc, )
-                    elif got:
-                        res.violation('C17', 'unknown-found', 'env store: unconfigured identity %r returns %r' % (ident, got), sc)
-                    if drv is not None:
-                        mo = drv.ask('s.envlookup %s %s' % (hexin(b_(ident)), hexin(b_(ident.upper()))))
-                        if mo != rec_str(got):
-                            res.disagree('env look-up', sc, rec_str(got), mo)
-                    res.note('lookup.env.%s' % ('hit' if got else 'miss'))
-                    res.nontriv(['env', sorted(env), ident])
+                env_lookups(res, drv, env, te, lookups(rng, te))
             finally:
                 ENV.os = real_os
         # ---------------- scripts.broker.get_authenticator wiring
@@ -262,5 +273,25 @@ def run(tier, seed, drv):
 
 def replay(script, drv):
     res = Result('stores')
-    res.note('replay-not-implemented')
+    tmp = tempfile.mkdtemp(prefix='verif_stores_')
+    try:
+        if 'env' in script:
+            real_os = ENV.os
+            ENV.os = EnvShim(script['env'])
+            try:
+                if drv is not None:
+                    drv.ask('s.reset')
+                    for kk, vv in script['env'].items():
+                        drv.ask('s.env %s %s' % (hexin(b_(kk)), hexin(b_(vv))))
+                te = script.get('env_table') or {}
+                env_lookups(res, drv, script['env'], te, sorted(set([script['lookup']]) | set(te)))
+            finally:
+                ENV.os = real_os
+        elif 'table' in script:
+            t, t2 = script['table'], script['table2']
+            ids = sorted(set([script['lookup']]) | set(t) | set(t2))
+            table_case(res, drv, tmp, 0, t, t2, ids, ids, bool(script.get('empty_reload') or (script.get('reloaded') and not script['table2'])))
+    finally:
+        import shutil
+        shutil.rmtree(tmp, ignore_errors=True)
     return res
